@@ -273,7 +273,7 @@ func c17LockPairs(c *Ctx) {
 			return 0, ""
 		},
 	}
-	fns := c.P.pkgFuncs("hcl", "hclsyntax", "json", "hcldec", "ext/dynblock")
+	fns := c.P.pkgFuncs(c.Scope("hcl", "hclsyntax", "json", "hcldec", "ext/dynblock")...)
 	results := analysePairs(inst, fns)
 	n := 0
 	for _, f := range fns {
